@@ -275,6 +275,12 @@ def check_box(out, facts):
                 conds = [p_ for p_ in parents if p_.get('k') == 'if']
                 if conds and 'is_null' in str(conds[-1].get('cond')):
                     has_null = True
+                # `let Some(p) = NonNull::new(ptr) else { handle_alloc_error(..) }` / the None arm of a match on it
+                for p_ in parents:
+                    if p_.get('k') == 'let' and p_.get('else') and 'non_null::NonNull' in str(p_.get('init')) and "'name': 'new'" in str(p_.get('init')):
+                        has_null = True
+                    if p_.get('k') == 'match' and 'non_null::NonNull' in str(p_.get('scrut')) and "'name': 'new'" in str(p_.get('scrut')):
+                        has_null = True
     if not has_null:
         why.append('allocation result is not null-checked (handle_alloc_error under is_null)')
     out.ob('R10.3', key, not why, '; '.join(sorted(set(why))), f['loc'], sample={'term': sym.tstr(t)[:400]})
